@@ -214,6 +214,10 @@ Definition printed_total (heading : string) (report : string) : option N :=
   | [] => None
   end.
 
+(* some line of the report starts with `pre` *)
+Definition has_line_starting (pre : string) (report : string) : Prop :=
+  exists l, In l (split_lines report) /\ is_some (strip_prefix pre l) = true.
+
 (* a line of the report *)
 Definition has_line (l : string) (report : string) : Prop := In l (split_lines report).
 Definition has_lineb (l : string) (report : string) : bool := existsb (String.eqb l) (split_lines report).
